@@ -390,6 +390,11 @@ def _directed():
                                S(0, 'a', 5), S(0, 'a', 6), S(1, 'a', 2), N(1, ('c', SILENT)), N(1, ('name', SILENT)),
                                N(1, ('r', SILENT)), B(0, N(1, ('a', SILENT))), CS(0, 'b', 1), S(0, 'c', 6), G(0, 'b'),
                                F(1, 'b', True), CS(1, 'b', 2)]))
+    # the guard compares with what the attribute reads (_held_value, e80cc81): class default re-assigned under an existing
+    # per-instance copy, then the identical object is accepted and the copy's stale default refused
+    out.append(('chain2', D2, [N(1), G(0, 'v'), CS(1, 'v', 6), F(0, 'v', True), SS(0, 'v'), S(0, 'v', 6), S(0, 'v', 4),
+                               U(0, ('v', 6)), U(0, ('v', 4)), CS(0, 'v', 7), SS(0, 'v'), S(0, 'v', 6),
+                               N(1), G(1, 'c'), F(1, 'c', False), F(1, 'c', True), CS(0, 'c', 3), S(1, 'c', 0), SS(1, 'c')]))
     # validation comes before the guard; a rejected renaming leaves the object locked (0d30e59)
     out.append(('chain2', D2, [N(1), SN(0, BAD), S(0, 'c', 6), S(0, 'name', 6), S(0, 'name', BAD), S(0, 'v', BAD), S(0, 'c', BAD),
                                U(0, ('v', 1), ('name', BAD), ('c', 6)), CS(1, 'name', BAD), CS(1, 'c', BAD), N(1, ('name', BAD)),
@@ -665,18 +670,6 @@ def classify(case, impl, fail):
     if fail.get('kind') != 'counterexample' or not isinstance(impl, dict) or 'steps' not in impl:
         return None
     why = str(fail.get('why'))
-    m0 = re.match(r"step (\d+): forbidden: (?:assignment|async reference assigned) to protected '(\w+)' of instance (\d+) ended with ok", why)
-    if m0:
-        # late-flag family: nothing is stored on the instance, so the guard compares with the stale default of the
-        # per-instance copy, not with the object the instance reads from the class
-        k, n2, j2 = int(m0.group(1)), m0.group(2), int(m0.group(3))
-        before = impl['steps'][k - 1] if k else impl['init']
-        if n2 in case['names'] and n2 != 'name' and j2 < len(before['inst']):
-            row = before['inst'][j2]['rows'][case['names'].index(n2)]
-            late = [o for o, _, _, _ in _walk(case['steps'][:k]) if o['op'] in ('flag', 'clsFlag') and o['n'] == n2 and o['b']]
-            if row[1] is None and row[2] is not None and late:
-                return 'constant-flag-set-later-value-not-referenced-on-instance'
-        return None
     m = re.match(r'step (\d+): ([\w-]+): (class|instance) (\d+) \'(\w+)\'', why)
     if not m:
         return None
